@@ -29,30 +29,35 @@ def universe(mods, u):
     ui, python = mods["ui"], mods["python"]
     S = ui.Symbol
     dt, x, v, a, B, k = S("dt"), S("x"), S("v"), S("a"), S("B"), S("k")
+    thrust, u1, U2 = S("thrust"), S("u1"), S("U2")       # the renamed controls of model M3
     if u == 1:
         mk = lambda g: ui.Model(dt=dt, state={x}, control=set(), state_model={x: x * (1 + g * dt / 8)})
+        m3 = mk(3)
         sensors = {"pos": {"p": x}}
-        pn = {"pnA": {}, "pnB": {}}
+        pn = {"pnA": {}, "pnB": {}, "pnC": {}}
         sn = {"snA": {"pos": {"p": 1.0}}, "snB": {"pos": {"p": 0.5}}}
         cal = {}
         ncols = (0, [1])
     elif u == 2:
         mk = lambda g: ui.Model(dt=dt, state={x, v}, control={a}, state_model={x: x + g * v * dt, v: v + a * dt})
+        m3 = ui.Model(dt=dt, state={x, v}, control={thrust}, state_model={x: x + 3 * v * dt, v: v + thrust * dt})
         sensors = {"pos": {"p": x}, "vel2": {"q": v, "r": x + v}}
-        pn = {"pnA": {a: 1.0}, "pnB": {a: 0.25}}
+        pn = {"pnA": {a: 1.0}, "pnB": {a: 0.25}, "pnC": {thrust: 0.75}}
         sn = {"snA": {"pos": {"p": 1.0}, "vel2": {"q": 0.5, "r": 2.0}}, "snB": {"pos": {"p": 2.0}, "vel2": {"q": 1.0, "r": 1.0}}}
         cal = {}
         ncols = (1, [1, 2])
     else:
         mk = lambda g: ui.Model(dt=dt, state={x, v}, control={a, B}, calibration={k},
                                 state_model={x: x + g * v * dt, v: v + (a + B * k) * dt})
+        m3 = ui.Model(dt=dt, state={x, v}, control={u1, U2}, calibration={k},
+                      state_model={x: x + 3 * v * dt, v: v + (u1 + U2 * k) * dt})
         sensors = {"pos": {"p": x}, "vel2": {"q": v, "r": x + v}, "Alt": {"h": x + k, "R2": v, "zz": x - v}}
-        pn = {"pnA": {a: 1.0, B: 0.5}, "pnB": {a: 0.25, B: 2.0}}
+        pn = {"pnA": {a: 1.0, B: 0.5}, "pnB": {a: 0.25, B: 2.0}, "pnC": {u1: 0.75, U2: 1.5}}
         sn = {"snA": {"pos": {"p": 1.0}, "vel2": {"q": 0.5, "r": 2.0}, "Alt": {"h": 1.0, "R2": 1.5, "zz": 0.75}},
               "snB": {"pos": {"p": 2.0}, "vel2": {"q": 1.0, "r": 1.0}, "Alt": {"h": 0.5, "R2": 0.5, "zz": 2.0}}}
         cal = {k: 0.5}
         ncols = (2, [3, 1, 2])     # sensor key order: Alt, pos, vel2
-    return {"M": {"M1": mk(1), "M2": mk(2)}, "S": {"S1": sensors}, "C": {"C1": cal}, "PN": pn, "SN": sn, "ncols": ncols}
+    return {"M": {"M1": mk(1), "M2": mk(2), "M3": m3}, "S": {"S1": sensors}, "C": {"C1": cal}, "PN": pn, "SN": sn, "ncols": ncols}
 
 
 def model_equal(m1, m2):
@@ -181,6 +186,8 @@ def run_cmds(mods, scn):
                 for k, v in ((k1, v1), (k2, v2)):
                     if k == "config":
                         kw[k] = python.Config(**{f: CFG_TOK[f][v[f]] for f in CFG_TOK})
+                    elif k == "symbolic_model":
+                        kw[k] = uni["M"][v]
                     else:
                         kw[k] = uni["PN"][v] if k == "process_noise" else CFG_TOK[k][v] if k in CFG_TOK else python.DEFAULT_MODULES
                 est.set_params(**kw)
@@ -272,6 +279,19 @@ def run(ctx):
         init = {"symbolic_model": "M1", "sensor_models": "S1", "calibration_map": "C1", "process_noise": {"id": "pnA"}, "sensor_noises": {"id": "snA"},
                 "config": {"common_subexpression_elimination": "false", "extra_validation": "false", "max_dt_sec": "0.1", "innovation_filtering": filt, "python_modules": "default"}}
         seqs.append({"universe": u, "init": init, "cmds": [{"cmd": "fit", "args": [], "outcome": "ok"}], "data_seed": ds})
+        withfit.append(seqs[-1])
+    # fixed sequences: fit, exchange the model for one whose controls have OTHER NAMES (with a noise map naming them), fit again,
+    # and back -- whatever a fit caches about the model's controls must not survive the exchange
+    for u in (2, 3):
+        init = {"symbolic_model": "M1", "sensor_models": "S1", "calibration_map": "C1", "process_noise": {"id": "pnA"}, "sensor_noises": {"id": "snA"},
+                "config": {"common_subexpression_elimination": "false", "extra_validation": "false", "max_dt_sec": "0.1", "innovation_filtering": "none", "python_modules": "default"}}
+        cmds = [{"cmd": "fit", "args": [], "outcome": "ok"},
+                {"cmd": "set_params", "args": ["symbolic_model", "M3", "process_noise", "pnC"], "outcome": "ok"},
+                {"cmd": "fit", "args": [], "outcome": "ok"},
+                {"cmd": "transform", "args": [], "outcome": "ok"},
+                {"cmd": "set_params", "args": ["symbolic_model", "M2", "process_noise", "pnB"], "outcome": "ok"},
+                {"cmd": "fit", "args": [], "outcome": "ok"}]
+        seqs.append({"universe": u, "init": init, "cmds": cmds, "data_seed": 3 + u})
         withfit.append(seqs[-1])
     ctx.log("%d command sequences (%d with fit) -> real SklearnEKFAdapter" % (len(seqs), sum(1 for s in seqs if s in withfit)))
     res = workers.run_tasks([("props.c17", "run_cmds", (s,), 600) for s in seqs], procs=ctx.cores)
